@@ -656,7 +656,7 @@ void
     }
 
     /* verification hook: after a growth inside the caller's workspace the head of the stack must not have passed its tail */
-    if ( Glu->MemModel == USER ) SLU_VERIF_EVENT(4, Glu->stack.top1 > Glu->stack.top2, (int) type);
+    if ( Glu->MemModel == USER ) SLU_VERIF_EVENT(4, Glu->stack.top1 > Glu->stack.top2, (int) type + (Glu->num_expansions ? 16 : 0));
     expanders[type].size = new_len;
     *prev_len = new_len;
     if ( Glu->num_expansions ) ++Glu->num_expansions;
